@@ -27,7 +27,7 @@ from bind import _pyscope as ps
 
 PROP = "C15"
 
-MAIN_GROUPS = ["core", "nest", "layout", "blocks", "methods", "core2", "defnames", "targets", "comp", "calls", "decoys"]
+MAIN_GROUPS = ["core", "nest", "layout", "blocks", "methods", "decos", "core2", "defnames", "targets", "comp", "calls", "decoys"]
 FEATURE_GROUPS = ["params", "stmts", "walrus", "lambda"]
 
 _ROOT = None
@@ -380,6 +380,10 @@ def offsets_to_ask(r, spans):
     for (a, b) in spans.values():
         ln, col = a
         skip.add(starts[ln - 1] + col)
+    for ln in r.deco_lines:
+        # a decorator line belongs to the def statement (rope's region starts at the `@`) while
+        # its expression is evaluated outside the function: not asked
+        skip.update(range(starts[ln - 1], starts[ln]))
     total = starts[-1]
     return [o for o in range(total) if o not in skip]
 
